@@ -166,6 +166,7 @@ class FuncCoverage:
 
         mon.register_callback(self.tool, mon.events.PY_START, cb)
         mon.set_events(self.tool, mon.events.PY_START)
+        mon.restart_events()
 
     def stop(self):
         mon = getattr(sys, "monitoring", None)
@@ -425,6 +426,11 @@ def finish(mod, prop_id, tier, seed, results, wall):
             bounds=getattr(mod, "bounds", lambda t: "")(tier),
             stubs=getattr(mod, "STUBS", []),
             known_findings_matched=[k for k in violations if k in known_keys and violations[k]["confirmed"]],
+            explanation=("states/transitions count the symbolic dispatcher states and dispatches executed over all explored paths (a state "
+                         "shared by several paths is counted once per path); paths = feasible symbolic paths, each ended with all its "
+                         "obligations decided by z3 for every value of the symbolic inputs; traces_validated_against_impl = paths whose "
+                         "observed values were reproduced by a concrete re-run of the un-instrumented library on a model of the path "
+                         "condition; functions_encoded = job_shop_lib functions executed under the engine (sys.monitoring)"),
             engine="symx (operator-overloading symbolic execution of the imported /repo modules, z3 %s)"
                    % _z3_version(),
         ),
